@@ -234,7 +234,34 @@ def units(tier):
                       replay=mk_replay(shape, mask, "bdbd"),
                       desc=f"dd = 0 with signs alternating along the enumeration, shape {shape_name(shape, mask)}, every cell and every target cell", **common))
     U += value_units(tier)
+    U += spec_sanity_units()
     U += comparator_units()
+    return U
+
+
+def spec_sanity_units():
+    """sanity of the hand-written specification itself (no code from /repo): with the incidence convention x_incidence
+    the boundary of a boundary vanishes, and geometric incidence lowers the dimension by exactly one - so the contract
+    'compute_incidence_between_cells == x_incidence' does carry dd = 0"""
+    U = []
+    for shape, mask in (((3, 2), None), ((2, 2, 2), None), ((3, 4), (True, False)), ((3, 3, 3), (True, True, True))):
+        lem = """
+  size_t a = nondet_size(), z = nondet_size();
+  __CPROVER_assume(a < X_SIZE && z < X_SIZE);
+  int sum = 0;
+  for (unsigned i = 0; i < DMAX; i++) if (i < D && x_coord(a, i) % 2 == 1) {
+    size_t f[2] = {x_face_lo(a, i), x_face_hi(a, i)};
+    for (int s = 0; s < 2; s++) {
+      __CPROVER_assert(x_dim(f[s]) + 1 == x_dim(a) && f[s] < X_SIZE, "a geometric face has one dimension less");
+      if (x_is_face(z, f[s])) sum += x_incidence(a, f[s]) * x_incidence(f[s], z);
+    }
+  }
+  __CPROVER_assert(sum == 0, "specification: boundary of boundary is zero for the incidence convention");
+"""
+        U.append(Unit(f"spec.incidence_convention.{shape_name(shape, mask)}", "C13", [], no_enforce=True, includes=["c13_glue.h"], defines=shape_defs(shape, mask),
+                      globals_=GHOST, route="B", bound=f"shape {shape}", unwind=10, object_bits=10, inputs=["a", "z"],
+                      harness="size_t nondet_size(void);\nint main(void) {\n" + lem + "\n  __CPROVER_assert(0, \"VP_REACH\");\n  return 0;\n}\n",
+                      desc=f"specification sanity on shape {shape_name(shape, mask)}: the incidence convention of the contracts satisfies dd = 0"))
     return U
 
 
